@@ -453,14 +453,24 @@ def obligations_converter(rep, repo, m):
     if it not in it_forms:
         raise AnalysisError(f"unrecognised idiom: {cons} iterates over `{it}`")
     call = store = None
+    unpacked = None   # `deg, _ = resolver(...)`: the first element of the returned pair
     for s in ast.walk(ast.Module(body=loop.body, type_ignores=[])):
         if isinstance(s, ast.Assign) and isinstance(s.value, ast.Subscript) and isinstance(s.value.value, ast.Call) \
                 and norm(s.value.value.func).endswith("_get_degree_and_size"):
             call = s
+        if isinstance(s, ast.Assign) and isinstance(s.value, ast.Call) and norm(s.value.func).endswith("_get_degree_and_size") \
+                and isinstance(s.targets[0], ast.Tuple) and len(s.targets[0].elts) == 2:
+            unpacked = s
     for s in loop.body:  # the positional store into the result array is a top-level statement of the loop
         if isinstance(s, ast.Assign) and isinstance(s.targets[0], ast.Subscript) and \
                 any(isinstance(x, ast.Name) and x.id in copies for x in ast.walk(s.targets[0].slice)):
             store = s
+    if call is None and unpacked is not None:
+        # normalise to the subscript form: <first target> = resolver(...)[0]
+        call = ast.Assign(targets=[unpacked.targets[0].elts[0]],
+                          value=ast.Subscript(value=unpacked.value, slice=ast.Constant(value=0), ctx=ast.Load()))
+        ast.copy_location(call, unpacked)
+        ast.fix_missing_locations(call)
     if call is None or store is None:
         raise AnalysisError(f"unrecognised idiom: {cons} loop body")
     c = call.value.value
